@@ -143,7 +143,7 @@ func ruleCustomMessage(r *Run) {
 				r.CheckT("H1", fn.Name+":relay-within-limit", seen && lo == 0 && hiV == limit, ev.Pos, path,
 					"a custom message is relayed exactly when its body has 0..%d bytes (path allows %s)", limit, ivStr(lo, hiV, seen))
 				ml := r.relayMsg(ev)
-				if ml == nil {
+				if !r.CheckT("H4", fn.Name+":built-from-request", ml != nil, ev.Pos, path, "the relayed message is built on this path (a literal whose fields can be traced to the request and the sender); a message object reused across requests can carry stale fields") {
 					continue
 				}
 				bx := litField(ml.Lit, "Body")
